@@ -217,6 +217,37 @@ fn v2_cfg(name: &str, thorough: bool) -> Cfg {
     c
 }
 
+/// storage of version 0.13.0 (one channel, ucosm counted), migrated with or without a default gas
+/// limit; afterwards a user may send coins straight to the contract's account (stray funds) and
+/// migrate may be called again: stray coins must never become redeemable channel balance
+fn stray_cfg(name: &str) -> Cfg {
+    let mut c = Cfg::base(name);
+    c.channels = 1;
+    c.old = Some(Old {
+        version: "0.13.0",
+        v1: false,
+        counted: vec![(N0, 1)],
+        inflight: vec![],
+        counted_b: vec![],
+        drained: vec![],
+        may_refuse: false,
+    });
+    c.first_migrate = vec![None, Some(2)];
+    c.migrate_limits = vec![None, Some(3)];
+    c.funds = vec![(A, N0, 1), (X, N0, 1)];
+    c.senders = vec![A];
+    c.donors = vec![X];
+    c.send_toks = vec![N0];
+    c.send_amounts = vec![1];
+    c.proper = vec![Base::Tok(N0)];
+    c.bad = vec![Den::Foreign(Base::Tok(N0))];
+    c.recv_amounts = vec![1, 2, 3];
+    c.fault_bound = 1;
+    c.fault_kinds = vec![Fault::Reject];
+    c.raws = vec![0];
+    c
+}
+
 /// storage of version 0.13.0 with TWO channels that both carry the same denominations. The real
 /// migration refuses it ("multiple channels open"), which is fine; if a migration accepts it, the
 /// books it leaves behind must still be covered channel by channel.
@@ -322,6 +353,7 @@ fn configs(prop: &str, thorough: bool) -> Vec<(Cfg, Option<usize>)> {
             }
             v.push(v2_two_channels_cfg("C11/upgrade/v2-0.13.0-two-channels-same-denoms"));
             v.push(drained_cfg("C11/upgrade/v2-0.13.0-drained-denom-with-send-in-flight", "0.13.0", false));
+            v.push(stray_cfg("C11/upgrade/v2-0.13.0-stray-funds-and-second-migrate"));
             v.push(u64_two_channels_cfg("C11/edge/u64-boundary/2ch-same-denom"));
             for mut c in v {
                 c.props = p.clone();
@@ -368,6 +400,7 @@ fn configs(prop: &str, thorough: bool) -> Vec<(Cfg, Option<usize>)> {
             v.push(v2_cfg("C12/upgrade/v2-0.13.0-inflight", thorough));
             v.push(v2_two_channels_cfg("C12/upgrade/v2-0.13.0-two-channels-same-denoms"));
             v.push(drained_cfg("C12/upgrade/v2-0.13.0-drained-denom-with-send-in-flight", "0.13.0", false));
+            v.push(stray_cfg("C12/upgrade/v2-0.13.0-stray-funds-and-second-migrate"));
             v.push(drained_cfg("C12/upgrade/v1-0.11.1-drained-denom-with-send-in-flight", "0.11.1", true));
             {
                 // same-version migrate at every reachable state
@@ -509,7 +542,7 @@ fn configs(prop: &str, thorough: bool) -> Vec<(Cfg, Option<usize>)> {
 fn describe(prop: &str) -> (&'static str, &'static str) {
     match prop {
         "C11" => (
-            "user Transfer (native, with funds) and cw20 Send{TransferMsg} of 1-2 (thorough 1-3) tokens by A and B on either of two channels while < 2 (3) packets are in flight, with plain channel ids (channel-1/2, counterparty ends channel-71/72) and with CROSSED ids (local channel-5 <-> remote channel-15, local channel-15 <-> remote channel-5); incoming packets on either channel with denom in {proper voucher of this channel for the sent token / a never-sent token / cw20:<garbage> / cw20:<non-contract>, voucher prefix of the OTHER channel, other port, un-prefixed foreign denom, our own port/channel prefix, doubled prefix, two-part denom, proper prefix + '<escrowed denom>/junk' and '<escrowed denom>/'}, amount in {1,2,3,2^64}, receiver in {valid user(s), invalid address}, memo unset or \"x\", raw non-ICS20 bytes; two channels escrowing 2^64-1 of the same denom each with returning packets of 2^64-1 / 2^64 / 2^65-2; old-layout storages incl. a drained denom (outstanding 0) with a send in flight; for every packet in flight Ack(success) | Ack(error) | Ack(garbage) | Timeout in any order; payout / refund sub-call made to fail (recipient or token rejects; every gas-limited sub-call runs out of gas), at most 1 (thorough 2) faults per history",
+            "user Transfer (native, with funds) and cw20 Send{TransferMsg} of 1-2 (thorough 1-3) tokens by A and B on either of two channels while < 2 (3) packets are in flight, with plain channel ids (channel-1/2, counterparty ends channel-71/72) and with CROSSED ids (local channel-5 <-> remote channel-15, local channel-15 <-> remote channel-5); incoming packets on either channel with denom in {proper voucher of this channel for the sent token / a never-sent token / cw20:<garbage> / cw20:<non-contract>, voucher prefix of the OTHER channel, other port, un-prefixed foreign denom, our own port/channel prefix, doubled prefix, two-part denom, proper prefix + '<escrowed denom>/junk' and '<escrowed denom>/'}, amount in {1,2,3,2^64}, receiver in {valid user(s), invalid address}, memo unset or \"x\", raw non-ICS20 bytes; two channels escrowing 2^64-1 of the same denom each with returning packets of 2^64-1 / 2^64 / 2^65-2; old-layout storages incl. a drained denom (outstanding 0) with a send in flight, and a 0.13.0 storage migrated with/without a default limit, then stray coins sent straight to the contract's account and further Migrate calls; for every packet in flight Ack(success) | Ack(error) | Ack(garbage) | Timeout in any order; payout / refund sub-call made to fail (recipient or token rejects; every gas-limited sub-call runs out of gas), at most 1 (thorough 2) faults per history",
             "after every step, for every token: real holdings of the ics20 contract (kernel bank / cw20 Balance) >= sum over channels of Channel{id}.balances; monitor per (channel, denom): credit = escrowed by accepted transfers - really paid out (redemptions + refunds, measured as falls of the contract's real balance in steps on that channel) >= 0; a packet whose denom is not a proper voucher of this channel for a local token, or whose amount exceeds the channel balance reported before the step, or that is not ICS-20 data moves no bank or cw20 balance at all; holdings never move in governance / migrate steps",
         ),
         "C12" => (
